@@ -121,6 +121,11 @@ func (x *Exec) modLocs(st *State, old *State, ct *Contract, env map[string]Val) 
 			case "content":
 				r := args[0].T
 				out = append(out, modLoc{Prefix: bytesArr, Ref: &r})
+			case "tree":
+				// tree(t): the contents of radix tree t
+				x.rtRegister()
+				r := args[0].T
+				out = append(out, modLoc{Prefix: "RT", Ref: &r})
 			case "alloftype":
 				// alloftype("types.NodeInformation"): every object of that struct type
 				lit := strings.Trim(args[0].T.S, `"`)
@@ -150,6 +155,9 @@ func (x *Exec) applyModifies(st *State, old *State, ct *Contract, env map[string
 		case m.Prefix == bytesArr:
 			f := x.fresh(st, "hvbytes", SStr)
 			x.writeComp(st, bytesArr, SStr, *m.Ref, f)
+		case m.Prefix == "RT":
+			x.rtSetHas(st, *m.Ref, x.fresh(st, "hvrth", arrSort(SStr, SBool)))
+			x.rtSetVal(st, *m.Ref, x.fresh(st, "hvrtv", arrSort(SStr, SInt)))
 		case m.Elem:
 			for _, ps := range x.prefixSorts(m.Prefix) {
 				inner := ps[1][len("(Array Int ") : len(ps[1])-1]
